@@ -234,4 +234,52 @@ Section WithDigest.
     intros C I M. unfold Integrity.oids_exist. rewrite C.
     apply exist_fold_intact; auto. now exists ob.
   Qed.
+  (* ---------------------------------------------------------------- checkout of a directory *)
+  Lemma check_all_gone o os : forall w, lookup o (w_objs w) = None ->
+    lookup o (w_objs (check_all H w os)) = None.
+  Proof.
+    induction os as [|o' os IH]; intros w G; simpl; auto. apply IH. now apply check_gone.
+  Qed.
+
+  Lemma check_all_tampered o os : forall w, TG w o ->
+    TG (check_all H w os) o /\ (In o os -> lookup o (w_objs (check_all H w os)) = None).
+  Proof.
+    induction os as [|o' os IH]; intros w T; simpl.
+    - split; auto. contradiction.
+    - destruct (TG_step w o o' T) as [T' X]. destruct (IH _ T') as [R1 R2]. split; auto.
+      intros [->|I]; auto. destruct (X eq_refl) as [_ G]. now apply check_all_gone.
+  Qed.
+
+  Lemma check_all_intact o os : forall w, IN w o -> IN (check_all H w os) o.
+  Proof.
+    induction os as [|o' os IH]; intros w I; simpl; auto. apply IH. now apply IN_step.
+  Qed.
+
+  (* a tampered file object listed by a directory is not materialised: the checkout fails
+     (CheckoutError), the entry contributes no file, the object is dropped *)
+  Theorem checkout_dir_refuses w d ents n o ob : Tampered w o ob -> In (n, o) ents ->
+    fst (fst (checkout_dir H w d ents)) = 5 /\
+    lookup o (w_objs (snd (checkout_dir H w d ents))) = None.
+  Proof.
+    intros T I. unfold checkout_dir.
+    destruct (check_all_tampered o (d :: map snd ents) w) as [_ G]; [left; now exists ob|].
+    assert (G' : lookup o (w_objs (check_all H w (d :: map snd ents))) = None).
+    { apply G. right. apply in_map_iff. exists (n, o). auto. }
+    clear G. set (w' := check_all H w (d :: map snd ents)) in *. clearbody w'. simpl.
+    split; auto.
+    destruct (forallb (fun e => has w' (snd e)) ents) eqn:E; auto.
+    rewrite forallb_forall in E. specialize (E (n, o) I). unfold has in E. simpl in E.
+    rewrite G' in E. discriminate.
+  Qed.
+
+  Theorem checkout_dir_intact w d ents n o ob : Intact w o ob -> In (n, o) ents ->
+    exists ob', Intact (snd (checkout_dir H w d ents)) o ob' /\
+                In (n, o_bytes ob') (snd (fst (checkout_dir H w d ents))).
+  Proof.
+    intros I M. unfold checkout_dir.
+    destruct (check_all_intact o (d :: map snd ents) w) as [ob' I']; [now exists ob|].
+    set (w' := check_all H w (d :: map snd ents)) in *. clearbody w'. simpl.
+    exists ob'. split; auto. apply in_flat_map. exists (n, o). split; auto. simpl.
+    destruct I' as (L & _). rewrite L. left. reflexivity.
+  Qed.
 End WithDigest.
